@@ -5,6 +5,7 @@ package main
 
 import (
 	"fmt"
+	"go/types"
 	"strings"
 
 	"golang.org/x/tools/go/ssa"
@@ -241,6 +242,44 @@ func runC19(cx *Ctx, r *Report) {
 		}
 		r.check(ok, "contents", e.Name, ev.Pos(cx), "stored value is built from the transaction bytes' hash, msg.Contents and the declared signer", "stored record is not built from tx hash, msg.Contents and the declared signer: "+val)
 	})
+	// ---------------- the whole counter enters the id
+	{
+		getters := map[*ssa.Function]bool{}
+		for _, g := range cx.gettersOf("record", []string{"record:IntraTxCounterKey=0x02"}) {
+			getters[g] = true
+		}
+		isCounterRead := func(v ssa.Value) bool {
+			c, ok := v.(*ssa.Call)
+			return ok && c.Common().StaticCallee() != nil && getters[c.Common().StaticCallee()]
+		}
+		n, bad := 0, ""
+		for _, f := range cx.P.AllFuncs {
+			if !isConsensusCode(cx, f) || moduleOf(funcPkgPath(f)) != "record" {
+				continue
+			}
+			for _, b := range f.Blocks {
+				for _, ins := range b.Instrs {
+					cv, ok := ins.(*ssa.Convert)
+					if !ok {
+						continue
+					}
+					src, ok1 := cv.X.Type().Underlying().(*types.Basic)
+					dst, ok2 := cv.Type().Underlying().(*types.Basic)
+					if !ok1 || !ok2 || src.Info()&types.IsInteger == 0 || dst.Info()&types.IsInteger == 0 {
+						continue
+					}
+					if !cx.derivesInterproc(cv.X, f, isCounterRead, 0, map[ssa.Value]bool{}) {
+						continue
+					}
+					n++
+					if types.SizesFor("gc", "amd64").Sizeof(dst) < types.SizesFor("gc", "amd64").Sizeof(src) {
+						bad = fmt.Sprintf("%s: the record counter is narrowed from %s to %s before it is used (ids repeat when the counter wraps the narrower type)", cx.P.Pos(cv.Pos()), src.Name(), dst.Name())
+					}
+				}
+			}
+		}
+		r.check(bad == "", "counter-full-width", "AddRecord", "", fmt.Sprintf("the running counter reaches the id preimage at full width (%d integer conversions of it, none narrowing)", n), bad)
+	}
 	r.requireCount("contents", 1)
 	r.requireCount("who-may-write", 2)
 }
